@@ -896,6 +896,205 @@ fn inner_count(tier: Tier) -> u64 {
 }
 
 
+// ---- ECDH PKESK: attacker-chosen padded plaintext behind a valid key wrap
+
+#[derive(Clone, Debug)]
+struct EcdhPad {
+    key: KeyKind,
+    v6: bool,
+    /// length of the wrapped plaintext (a multiple of 8)
+    len: usize,
+    last: u8,
+    /// true: every octet equals `last`; false: a counting pattern that ends in `last`
+    uniform: bool,
+}
+
+fn ecdh_pad_cases() -> &'static Vec<EcdhPad> {
+    static C: std::sync::OnceLock<Vec<EcdhPad>> = std::sync::OnceLock::new();
+    C.get_or_init(|| {
+        let mut v = Vec::new();
+        for key in [KeyKind::EcdsaP256V4, KeyKind::Ed25519LegacyV4, KeyKind::EcdsaP256V6] {
+            for len in [8usize, 16, 24, 32, 40, 48] {
+                for last in 0..=255u8 {
+                    for uniform in [false, true] {
+                        v.push(EcdhPad { key, v6: key.is_v6(), len, last, uniform });
+                    }
+                }
+            }
+        }
+        v
+    })
+}
+
+fn run_ecdh_pad(c: &EcdhPad) -> Outcome {
+    let cert = common::cert(c.key, 3);
+    let sub = &cert.secret_subkeys[0].key;
+    let pub_body = sub.public_key().to_bytes().unwrap_or_default();
+    let Some((point, kek, _)) = kdf::ecdh_model_agree(&pub_body, sub.fingerprint().as_bytes(), 3, 0) else {
+        return Outcome::trivial("curve-not-modelled");
+    };
+    let mut m: Vec<u8> = (0..c.len).map(|i| if c.uniform { c.last } else { (i as u8).wrapping_mul(29).wrapping_add(7) }).collect();
+    m[c.len - 1] = c.last;
+    let Some(w) = kdf::aes_kw_wrap(&kek, &m) else { return Outcome::trivial("wrap-refused") };
+    let values = PkeskBytes::Ecdh { public_point: pgp::types::Mpi::from_slice(&point), encrypted_session_key: w.into() };
+    stage_reset();
+    let r = crate::engine::guarded(|| {
+        let typ = if c.v6 { EskType::V6 } else { EskType::V3_4 };
+        if matches!(dbg(sub.decrypt(&Password::empty(), &values, typ)), Ok(Ok(_))) {
+            mark(10);
+        }
+    });
+    match r {
+        Ok(()) => Outcome::ok(stage_class()),
+        Err((loc, msg)) => Outcome::bad(
+            format!("C04:panic@{}:ecdh-padding", crate::engine::loc_file(&loc)),
+            format!("ECDH PKESK whose validly wrapped plaintext is {} octets ending in {:#04x} ({c:?}): panic at {loc}: {}", c.len, c.last, msg.chars().take(120).collect::<String>()),
+        ),
+    }
+}
+
+// ---- hostile data under a text-mode signature
+
+#[derive(Clone, Debug)]
+struct TextData {
+    len: usize,
+    pattern: u8,
+    /// 0 detached signature verify, 1 cleartext framework, 2 prefixed message
+    carrier: u8,
+}
+
+const TEXT_PATTERNS: [&str; 8] = [
+    "x... ending in CR",
+    "x... ending in CR LF",
+    "x... with CR LF across every 512 multiple, ending in CR",
+    "x... with LF at every 512 multiple, ending in CR",
+    "all CR",
+    "all LF",
+    "CR LF CR LF ...",
+    "x... with CR at 511 mod 512",
+];
+
+fn text_data(len: usize, pattern: u8) -> Vec<u8> {
+    let mut d = vec![b'x'; len];
+    match pattern {
+        0 => {
+            if len > 0 {
+                d[len - 1] = b'\r';
+            }
+        }
+        1 => {
+            if len > 1 {
+                d[len - 2] = b'\r';
+                d[len - 1] = b'\n';
+            }
+        }
+        2 | 3 => {
+            let mut k = 512;
+            while k < len {
+                if pattern == 2 {
+                    d[k - 1] = b'\r';
+                }
+                d[k] = b'\n';
+                k += 512;
+            }
+            if len > 0 {
+                d[len - 1] = b'\r';
+            }
+        }
+        4 => d.fill(b'\r'),
+        5 => d.fill(b'\n'),
+        6 => {
+            for (i, b) in d.iter_mut().enumerate() {
+                *b = if i % 2 == 0 { b'\r' } else { b'\n' };
+            }
+        }
+        _ => {
+            let mut k = 511;
+            while k < len {
+                d[k] = b'\r';
+                k += 512;
+            }
+        }
+    }
+    d
+}
+
+fn text_lens(tier: Tier) -> Vec<usize> {
+    let mut v: Vec<usize> = (0..=if tier == Tier::Quick { 40usize } else { 600 }).collect();
+    for k in 1..=if tier == Tier::Quick { 4usize } else { 17 } {
+        let c = 512 * k;
+        v.extend(c - 3..=c + 3);
+    }
+    v
+}
+
+fn text_data_cases(tier: Tier) -> &'static Vec<TextData> {
+    static Q: std::sync::OnceLock<Vec<TextData>> = std::sync::OnceLock::new();
+    static T: std::sync::OnceLock<Vec<TextData>> = std::sync::OnceLock::new();
+    (if tier == Tier::Quick { &Q } else { &T }).get_or_init(|| {
+        let mut v = Vec::new();
+        for len in text_lens(tier) {
+            for pattern in 0..TEXT_PATTERNS.len() as u8 {
+                for carrier in 0..3u8 {
+                    v.push(TextData { len, pattern, carrier });
+                }
+            }
+        }
+        v
+    })
+}
+
+fn run_text_data(c: &TextData) -> Outcome {
+    // a text-mode signature (made over other data: hashing happens before the signature check,
+    // and the data is the attacker's)
+    let cert = common::cert(KeyKind::Ed25519V4, 1);
+    let pk = cert.primary_key.public_key();
+    let data = text_data(c.len, c.pattern);
+    stage_reset();
+    let r = crate::engine::guarded(|| {
+        let Ok(sig) = DetachedSignature::sign_text_data(crate::engine::rng(1), &cert.primary_key, &Password::empty(), pgp::crypto::hash::HashAlgorithm::Sha256, &b"other"[..]) else { return };
+        match c.carrier {
+            0 => {
+                mark(0);
+                if sig.verify(pk, &data[..]).is_ok() {
+                    mark(5);
+                }
+                let _ = sig.signature.verify(pk, &data[..]);
+            }
+            1 => {
+                // a hostile cleartext document around the signature
+                let Ok(text) = String::from_utf8(data.clone()) else { return };
+                let mut doc = String::from("-----BEGIN PGP SIGNED MESSAGE-----\nHash: SHA256\n\n");
+                doc.push_str(&text);
+                doc.push('\n');
+                doc.push_str(&sig.to_armored_string(None.into()).unwrap_or_default());
+                if let Ok((m, _)) = CleartextSignedMessage::from_string(&doc) {
+                    mark(0);
+                    if m.verify(pk).is_ok() {
+                        mark(5);
+                    }
+                    let _ = m.signed_text();
+                }
+            }
+            _ => {
+                let mut lit = vec![b'u', 0, 0, 0, 0, 0];
+                lit.extend_from_slice(&data);
+                let stream = [frame_min(2, &sig.signature.to_bytes().unwrap_or_default()), frame_min(11, &lit)].concat();
+                if let Ok(m) = Message::from_bytes(&stream[..]) {
+                    drain_message(m, 0);
+                };
+            }
+        }
+    });
+    match r {
+        Ok(()) => Outcome::ok(stage_class()),
+        Err((loc, msg)) => Outcome::bad(
+            format!("C04:panic@{}:text-signature-data", crate::engine::loc_file(&loc)),
+            format!("text-mode signature over {} octets of data ({}), carrier {}: panic at {loc}: {}", c.len, TEXT_PATTERNS[c.pattern as usize], ["detached", "cleartext", "prefixed message"][c.carrier as usize], msg.chars().take(120).collect::<String>()),
+        ),
+    }
+}
+
 // ---- LibrePGP / GnuPG OCB packet (tag 20) behind the opt-in
 
 #[derive(Clone, Debug)]
@@ -1164,6 +1363,8 @@ fn space_total(tier: Tier, space: &str) -> u64 {
         "inner_streams" => inner_count(tier),
         "secret_material" => sec_total(tier),
         "gnupg_aead_header" => gnupg_cases(tier).len() as u64,
+        "ecdh_padding" => ecdh_pad_cases().len() as u64,
+        "text_signature_data" => text_data_cases(tier).len() as u64,
         _ => 0,
     }
 }
@@ -1184,6 +1385,8 @@ fn case_json(tier: Tier, space: &str, idx: u64) -> Value {
         "seipdv2_header" => json!({"index": idx, "case": format!("{:?}", v2_header_cases(tier)[idx as usize])}),
         "secret_material" => json!({"index": idx, "case": sec_case(tier, idx).3}),
         "gnupg_aead_header" => json!({"index": idx, "case": format!("{:?}", gnupg_cases(tier)[idx as usize])}),
+        "ecdh_padding" => json!({"index": idx, "case": format!("{:?}", ecdh_pad_cases()[idx as usize])}),
+        "text_signature_data" => json!({"index": idx, "case": format!("{:?}", text_data_cases(tier)[idx as usize])}),
         _ => json!({"index": idx}),
     }
 }
@@ -1207,6 +1410,8 @@ fn run_case(tier: Tier, space: &str, idx: u64) -> Outcome {
         "inner_streams" => run_inner(tier, idx),
         "secret_material" => run_sec(tier, idx),
         "gnupg_aead_header" => run_gnupg(&gnupg_cases(tier)[idx as usize]),
+        "ecdh_padding" => run_ecdh_pad(&ecdh_pad_cases()[idx as usize]),
+        "text_signature_data" => run_text_data(&text_data_cases(tier)[idx as usize]),
         _ => Outcome::trivial("unknown space"),
     }
 }
@@ -1221,7 +1426,9 @@ pub fn worker(tier: Tier, space: &str, start: u64, end: u64) -> Option<Value> {
 
 pub fn check(ctx: &Ctx) {
     let tier = ctx.tier;
-    let spaces: [(&str, &str, u64); 9] = [
+    let spaces: [(&str, &str, u64); 11] = [
+        ("ecdh_padding", "ECDH PKESK (P-256 v4/v6, Curve25519-legacy) made by the reference model (own ephemeral key, RFC 9580 11.5 KDF, RFC 3394 wrap) around an attacker-chosen plaintext: every length 8..48 (multiples of 8) x every final (padding) octet 0..255 x uniform / patterned fill, through DecryptionKey::decrypt v3 / v6", 1_000),
+        ("text_signature_data", "attacker-chosen data under a text-mode signature (hashing precedes the signature check): every length 0..40 (thorough 0..600) and every length within 3 of each multiple of 512 up to 2048 (8704) x 8 line-ending patterns (trailing CR / CR LF, CR LF or LF on every 512 edge with a trailing CR, all CR, all LF, alternating, CR just before every edge) x carrier {detached verify, cleartext document, prefixed message}", 2_000),
         ("gnupg_aead_header", "LibrePGP / GnuPG OCB packet (tag 20, opt-in enabled) from the published test vector with its cipher x AEAD octets over all 256 x 256 pairs (quick: AEAD edge values), chunk octet 0..255, behind the vector's valid SKESK v5 (so that a genuine 16-octet session key meets every cipher octet) and with caller-supplied V5 session keys of every length 0..40", 10_000),
         ("secret_material", "attacker-chosen secret key material behind a valid checksum (unprotected, v4 16-bit checksum / v6 none) and behind valid usage-254 protection under the presented password (CFB + SHA-1 computed by the reference model), for the primary and the encryption subkey of all 10 key kinds (Ed25519 v4/v6/legacy, Ed448, ECDSA P-256 v4/v6, P-384, P-521, secp256k1, RSA-2048; X25519, X448, ECDH, RSA subkeys): every position of the genuine material set to 6 values (thorough: 256), every truncation, every string of length <= 1; parsed, re-serialised, unlocked, then used to sign a digest (primaries) or to decrypt a PKESK made for the genuine key (subkeys)", 3_000),
         ("small_strings", "EVERY byte string of length 0..2 (thorough: 0..3) at each of 13 entry points (PacketParser + re-serialisation, Message::from_bytes / from_armor + decrypt attempts + decompress + read + verify, SignedPublicKey / SignedSecretKey::from_bytes (+ verify_bindings, serialise, unlock, encrypt-to, sign-with), from_armor_single, from_bytes_many, DetachedSignature, CleartextSignedMessage, Dearmor (with and without CRC check), Base64Decoder<Base64Reader>, zero-length reads on every reader)", 40_000),
